@@ -81,7 +81,14 @@ static Length	lastlno, lastftell;
 SrcPos
 sposOffset(SrcPos p, int c)
 {
-    return (((p >> SPOS_CNO_SHIFT)+c) << SPOS_CNO_SHIFT) | (p & SPOS_MAC_MASK);
+    /* Clamp the column to its field so that it cannot carry into the line. */
+    long cno = (long) ((p & SPOS_CNO_MASK) >> SPOS_CNO_SHIFT) + c;
+    long max = (1L << SPOS_CNO_NBITS) - 1;
+
+    if (cno < 0)   cno = 0;
+    if (cno > max) cno = max;
+
+    return (p & ~SPOS_CNO_MASK) | ((SrcPos) cno << SPOS_CNO_SHIFT);
 }
 
 Bool
